@@ -310,6 +310,21 @@ def run(ctx):
             ctx.fail("build-error:" + label, str(e)[-600:])
             continue
         ctx.configs.append(label + " asan+ubsan")
+    # the ASCON_NO_STL configuration: the library's own copy-on-write byte_array under every C++ class and helper, and searched on its own (operation histories of C20)
+    for cc, be in ((("gcc", "asm"), ("clang", "c32"), ("gcc", "c64")) if t else (("gcc", "asm"),)):
+        label = "%s-%s-nostl" % (cc, be)
+        try:
+            nolib = build.build_lib(be, D, cc=cc, san="asan", opt="-O1", no_stl=True)
+            c17 = build.build_prog("c17", ["harness/c17.cpp", "harness/sysrand.c", "ref/ref.c"], nolib, opt="-O1", extra=["-DASCON_NO_STL"], cfg_dep=True)
+            ba = build.build_prog("c20_ba", ["harness/c20_ba.cpp"], nolib, opt="-O1", extra=["-DASCON_NO_STL"], cfg_dep=True)
+            hp = build.build_prog("c20_helpers", ["harness/c20_helpers.cpp", "ref/ref.c"], nolib, opt="-O1", extra=["-DASCON_NO_STL"], cfg_dep=True)
+            c14 = build.build_prog("c14", ["harness/c14.c", "harness/cpp_session.cpp"] + STD, nolib, opt="-O1", extra=["-DASCON_NO_STL"], cfg_dep=True)
+        except build.BuildError as e:
+            ctx.fail("build-error:" + label, str(e)[-600:])
+            continue
+        jobs += [(c17, [], label, EX), (ba, [2, 5], label, EX), (ba, [3, 4], label, EX), (hp, [], label, EX)]
+        jobs += [(c14, ["cpp", fam, alg, 0], label, EX) for fam in range(4) for alg in range(3)]
+        ctx.configs.append(label + " asan+ubsan ASCON_NO_STL")
     # guard pages around everything handed to assembly (no sanitizer: native -O2 library)
     for tr in ([D, (2, 1, 2), (3, 3, 3)] if not t else build.ALL_TRIPLES):
         lib = build.build_lib("asm", tr, opt="-O2")
